@@ -61,6 +61,12 @@ CLAIMED['C18'] = dict(
    note='Trusted: clang AST, SQL reader, catalog model (validated under C17). Not decided: time_point <-> integer/text conversion values, affinity conversions inside SQLite, equality of whole rows after arbitrary sequences. Two genuine defects repaired (remove() of a nonexistent row; entity removal keyed by the wrong column).',
    ref='DESIGN.md 4 C18')
 
+CLAIMED['C01'] = dict(
+   technique='value-flow (provenance) analysis: abstract interpretation of snapshot(), update() and create_track() of both generations over the clang AST with all repository callees inlined down to the SQL statement sites, per schema range; plus statement-level shape / agreement / name-resolution rules',
+   text='Decides the structural part of the round trip for every schema range the code distinguishes (9 representative versions) and each of the 25 snapshot fields: R4 the set of storage locations (table, column, key/value discriminator, member inside a decoded blob) that snapshot() computes field X from must be non-empty exactly when create/update store X, must be contained in the locations update() writes from X, must not be written from another field that X does not also write, create_track and update must agree, and for the 2.x converter pairs the reader parameter of a role must be fed from the column the writer stores that role in (fall-through in a switch, a wrong metadata type, a transposed converter argument, a forgotten read-back are all reported with the locations). R1-R3: placeholders == binds, INSERT/SELECT widths, each column tied to one source across INSERT / UPDATE / SELECT and ranges (key/value tables: type <-> parameter pairing), every table / column resolves in the DDL of every admitted version. R5: each blob column is encoded and decoded by one codec class.',
+   note='Trusted: clang AST, sa/valueflow.py (term language and its treatment of std wrappers as transparent), SQL reader, catalog model. Not decided (value level): conversion exactness, clamping / truncation arithmetic, padding to eight slots, fixed-point (idempotence). One genuine defect repaired (1.x snapshot never read rating); three known findings, one root cause (1.x bpm columns).',
+   ref='DESIGN.md 4 C01')
+
 NOT_APPLICABLE = {
  'C19': 'numerical result of integer/floating arithmetic over all inputs (ceiling division, quantisation, minimality, monotonicity): no structural clause beyond the division guard, which C15-U6 covers; a sound decision needs an arithmetic solver or proof (different family)',
  'C20': 'floating-point numerical behaviour of beat-grid extrapolation (bracketing, tempo preservation, idempotence up to rounding); only the iterator arithmetic is shape-visible and is covered by C15-U3',
